@@ -64,7 +64,7 @@ impl T {
     /// closed-form number of values of this type (arrays of length 0..=2)
     fn count(&self, l: Leaves) -> u64 {
         match self {
-            T::Int => if l == Leaves::Full { 3 } else { 1 },
+            T::Int => if l == Leaves::Full { 4 } else { 1 },
             T::Bool => if l == Leaves::Full { 2 } else { 1 },
             T::Void => 1,
             T::Str => if l == Leaves::Full { 3 } else { 1 },
@@ -81,7 +81,7 @@ impl T {
         match self {
             T::Int => {
                 if l == Leaves::Full {
-                    vec![Val::Int(0), Val::Int(-7), Val::Int(i64::MAX)]
+                    vec![Val::Int(0), Val::Int(-7), Val::Int(i64::MAX), Val::Int(i64::MIN)]
                 } else {
                     vec![Val::Int(-7)]
                 }
